@@ -931,7 +931,10 @@ pub fn ack_kill_session(seed: u64, route: &str) -> (Vec<(String, String)>, u64) 
     let run2 = match start_plain(&dir) {
         Ok(r) => r,
         Err(e) => {
-            findings.push(("does-not-restart".into(), format!("after the kill the server does not come up on the same directory: {e}")));
+            // only a server that exits on this directory has failed to restart; one that is slow
+            // to come up on a loaded machine is the harness's problem
+            let class = if e.contains("exited at once") { "does-not-restart" } else { "machinery" };
+            findings.push((class.into(), format!("after the kill the server does not come up on the same directory: {e}")));
             return (findings, nreq);
         }
     };
